@@ -24,6 +24,7 @@ import (
 	"sort"
 	"strconv"
 	"strings"
+	"time"
 
 	. "vh/kit"
 
@@ -250,6 +251,19 @@ type histEnv struct {
 	rev     map[string]int // bytes -> cid
 	mgr     *plugin.CLIManager
 	nsrc    int
+	// concurrency family: the view is restricted to one plugin name, the context carries a
+	// yielding logger, the sources are materialised beforehand
+	only  string
+	ctx   context.Context
+	paths []string
+	busy  bool // an exec hit ETXTBSY (a fork of another goroutine held the freshly written file)
+}
+
+func (e *histEnv) context() context.Context {
+	if e.ctx != nil {
+		return e.ctx
+	}
+	return context.Background()
 }
 
 func (e *histEnv) bytesOf(cid int) []byte {
@@ -331,6 +345,9 @@ func (e *histEnv) snapshot() viewObs {
 		panic(err)
 	}
 	for _, d := range ents { // ReadDir sorts by name
+		if e.only != "" && d.Name() != e.only {
+			continue
+		}
 		ds := dirSpec{Name: d.Name(), Files: []fileSpec{}}
 		if !d.IsDir() {
 			ds.Files = append(ds.Files, fileSpec{Name: "<not a directory>", Mode: 0, Cid: 997})
@@ -363,13 +380,21 @@ func (e *histEnv) snapshot() viewObs {
 		}
 		v.Tree = append(v.Tree, ds)
 	}
-	ctx := context.Background()
+	ctx := e.context()
 	l, err := e.mgr.List(ctx)
 	if err != nil {
 		v.ListErr = err.Error()
 		v.List = []string{"<List failed>"}
 	} else if l != nil {
 		v.List = l
+	}
+	if e.only != "" && err == nil {
+		v.List = []string{}
+		for _, n := range l {
+			if n == e.only {
+				v.List = append(v.List, n)
+			}
+		}
 	}
 	for _, d := range v.Tree {
 		a := ansObs{Name: d.Name}
@@ -378,6 +403,11 @@ func (e *histEnv) snapshot() viewObs {
 			a.Kind = "AAbsent"
 		} else {
 			md, err := p.GetMetadata(ctx, &fwplugin.GetMetadataRequest{})
+			for try := 0; e.only != "" && err != nil && strings.Contains(err.Error(), "text file busy") && try < 50; try++ {
+				// ETXTBSY: a child forked by another goroutine still holds the descriptor our copy wrote through
+				time.Sleep(time.Millisecond)
+				md, err = p.GetMetadata(ctx, &fwplugin.GetMetadataRequest{})
+			}
 			var mal *plugin.PluginMalformedError
 			switch {
 			case err == nil:
@@ -486,14 +516,27 @@ func runHist(scratch string, idx int, h *histSpec) (o caseObs) {
 		}
 	}
 	e.mgr = plugin.NewCLIManager(dir.NewSysFS(e.root))
+	e.runOps(scratch, h, &o)
+	return o
+}
+
+// runOps executes the operations of h on e.mgr and records the observations in o.
+func (e *histEnv) runOps(scratch string, h *histSpec, o *caseObs) {
 	iv := e.snapshot()
 	o.Init = &iv
-	ctx := context.Background()
+	ctx := e.context()
+	ninst := 0
 	for _, op := range h.Ops {
 		st := stepObs{Op: op.Op}
 		switch op.Op {
 		case "install":
-			path := e.materialise(op.Src)
+			var path string
+			if e.paths != nil {
+				path = e.paths[ninst]
+				ninst++
+			} else {
+				path = e.materialise(op.Src)
+			}
 			ex, nw, err := e.mgr.Install(ctx, plugin.CLIInstallOptions{PluginPath: path, Overwrite: op.Overwrite})
 			if ex != nil {
 				st.Existing = &[2]string{ex.Name, ex.Version}
@@ -504,6 +547,9 @@ func runHist(scratch string, idx int, h *histSpec) (o caseObs) {
 			st.Err = installErrClass(err)
 			if err != nil {
 				st.ErrText = Short(strings.ReplaceAll(err.Error(), scratch, "$TMP"), 200)
+				if strings.Contains(err.Error(), "text file busy") {
+					e.busy = true
+				}
 			}
 		case "uninstall":
 			err := e.mgr.Uninstall(ctx, op.Name)
@@ -515,7 +561,6 @@ func runHist(scratch string, idx int, h *histSpec) (o caseObs) {
 		st.View = e.snapshot()
 		o.Steps = append(o.Steps, st)
 	}
-	return o
 }
 
 func runCmp(c *cmpSpec) caseObs {
@@ -671,6 +716,9 @@ func runC20(a *Args) error {
 	}
 	defer os.RemoveAll(scratch)
 
+	if len(a.Extra) == 1 && a.Extra[0] == "conc" {
+		return runConcChild(a, scratch)
+	}
 	// worker mode: execute the cases idx % W == k and print the observations
 	if len(a.Extra) == 3 && a.Extra[0] == "worker" {
 		k, _ := strconv.Atoi(a.Extra[1])
@@ -755,16 +803,11 @@ func runC20(a *Args) error {
 		}
 	}
 
-	for _, i := range want {
-		o := obs[i]
-		if o == nil {
-			return fmt.Errorf("no observation for case %d", i)
-		}
-		c := &specs[i]
+	emit := func(i int, c *caseSpec, o *caseObs) {
 		desc := map[string]any{"input": c, "observed": o}
 		if o.Panic != "" {
 			w.ImplViolation(int64(i), "panic or harness failure while executing the history: "+o.Panic, desc, "")
-			continue
+			return
 		}
 		keyb, _ := json.Marshal(c)
 		nontrivial := false
@@ -807,6 +850,14 @@ func runC20(a *Args) error {
 		}
 		w.Add(int64(i), caseTerm(int64(i), c, o), desc, string(keyb), nontrivial)
 	}
+	for _, i := range want {
+		if obs[i] == nil {
+			return fmt.Errorf("no observation for case %d", i)
+		}
+		emit(i, &specs[i], obs[i])
+	}
+	// the concurrency family (one shared manager, a child process); ids follow the ordinary cases
+	runConcParent(a, w, len(specs), emit)
 	return w.Close()
 }
 
